@@ -8,7 +8,7 @@ from .common import coqbool, zl, zlist, zlist2
 PROP = 'C11'
 
 HEADER = """From Coq Require Import ZArith List Bool.
-From PB Require Import lib.SumZ lib.PySlice lib.Arr lib.CaseUtil C11.DtD C11.Table gen.GenBands C11.Banded C11.Uses.
+From PB Require Import lib.SumZ lib.PySlice lib.Arr lib.CaseUtil C11.DtD C11.Table gen.GenBands C11.Banded C11.Uses C11.PSplineSys.
 Import ListNotations.
 Open Scope Z_scope.
 """
@@ -354,9 +354,109 @@ def search(ctx, budget):
                      f' (has_pentapy={small[0]}, N={small[1]}, c0={small[2]}, ops={small[3]})',
                      {'kind': 'history', 'hp': small[0], 'N': small[1], 'c0': small[2], 'ops': small[3]})
             found += 1
+    # 5. every constructor returns a NEW object on every call: no memory shared between two results, and a
+    #    caller that modifies its result in place does not change what later calls return
+    found += fresh_results(ctx, budget)
     # 4. PSpline (the P-spline subclass re-uses its penalty through reset_penalty_diagonals;
     #    padding = spline_degree - diff_order is <= 0 for diff_order >= spline_degree)
     found += pspline_histories(ctx, 25 * budget)
+    return found
+
+
+def _buffers(obj):
+    """the ndarrays that hold an object's values / structure"""
+    if isinstance(obj, np.ndarray):
+        return [obj]
+    return [getattr(obj, a) for a in ('data', 'indices', 'indptr', 'offsets', 'row', 'col')
+            if isinstance(getattr(obj, a, None), np.ndarray)]
+
+
+def _dense(obj):
+    return np.array(obj.toarray() if hasattr(obj, 'toarray') else obj, dtype=float)
+
+
+def _mutate(obj):
+    for b in _buffers(obj)[:1]:
+        if b.size:
+            b *= 3
+            b += 1
+
+
+def fresh_results(ctx, budget):
+    from pybaselines import utils
+    bu = _imp()
+    found = 0
+    cons = []
+    sizes = [(5, 1), (7, 2), (9, 3), (9, 4), (6, 5), (12, 6), (4, 2), (3, 0), (8, 0)]
+    if budget > 1:
+        sizes += [(N, d) for N in (10, 30) for d in range(0, 7)]
+    for (N, d) in sizes:
+        D = np.diff(np.eye(N), d, axis=0)
+        for fmt in (None, 'csr', 'csc', 'dia'):
+            cons.append((f'utils.difference_matrix({N}, {d}, {fmt!r})', 'difference_matrix',
+                         (lambda N=N, d=d, fmt=fmt: utils.difference_matrix(N, d, fmt)), D))
+            cons.append((f'_banded_utils.difference_matrix({N}, {d}, {fmt!r})', 'difference_matrix',
+                         (lambda N=N, d=d, fmt=fmt: bu.difference_matrix(N, d, fmt)), D))
+        for fmt in ('csr', 'csc'):
+            cons.append((f'diff_penalty_matrix({N}, {d}, {fmt!r})', 'diff_penalty_matrix',
+                         (lambda N=N, d=d, fmt=fmt: bu.diff_penalty_matrix(N, d, fmt)), D.T @ D))
+        for lower in (True, False):
+            for pad in (0, 2):
+                cons.append((f'diff_penalty_diagonals({N}, {d}, {lower}, {pad})', 'diff_penalty_diagonals',
+                             (lambda N=N, d=d, lower=lower, pad=pad: bu.diff_penalty_diagonals(N, d, lower, pad)), None))
+            for attr in ('penalty', 'original_diagonals'):
+                for lam in (1, 2):
+                    cons.append((f'PenalizedSystem({N}, lam={lam}, diff_order={d}, allow_lower={lower}).{attr}', f'PenalizedSystem.{attr}',
+                                 (lambda N=N, d=d, lower=lower, attr=attr, lam=lam:
+                                  getattr(bu.PenalizedSystem(N, lam=lam, diff_order=d, allow_lower=lower, allow_pentapy=False), attr)),
+                                 None))
+    for label, kind, f, ref in cons:
+        case = {'kind': 'fresh', 'call': label}
+        ctx.case(('o-fresh', label), nontrivial=True, kind=f'oracle:fresh:{kind}')
+        try:
+            r1, r2 = f(), f()
+            snap = _dense(r1)
+            if ref is not None and (snap.shape != ref.shape or not np.array_equal(snap, ref)):
+                ctx.fail(f'fresh:{kind}:value', f'{label} is not the exact matrix', case)
+                found += 1
+                continue
+            shared = r1 is r2 or any(np.shares_memory(a, b) for a in _buffers(r1) for b in _buffers(r2))
+            _mutate(r1)
+            r3 = f()
+            stale = not np.array_equal(_dense(r3), snap) or not np.array_equal(_dense(r2), snap)
+        except Exception as exc:  # noqa
+            ctx.fail(f'fresh:{kind}:raises', f'{label} raised {type(exc).__name__}: {exc}', case)
+            found += 1
+            continue
+        if stale:
+            ctx.fail(f'fresh:{kind}:stale-after-mutation',
+                     f'{label}: after the caller modified the first result in place, another call / an earlier second result no longer '
+                     'equals a fresh computation', case)
+            found += 1
+        elif shared:
+            ctx.fail(f'fresh:{kind}:shared-object', f'{label}: two calls return objects that share memory', case)
+            found += 1
+    # the sparse route of the penalty (d >= 4 or N < 2d+1) after a caller modified a difference matrix
+    for (N, d) in [(9, 4), (12, 5), (4, 2), (6, 3)]:
+        for fmt in ('csc', 'csr', None):
+            label = f'difference_matrix({N}, {d}, {fmt!r}).data *= 3 ; diff_penalty_diagonals({N}, {d})'
+            ctx.case(('o-fresh-route', N, d, fmt), nontrivial=True, kind='oracle:fresh:sparse-route')
+            try:
+                _mutate(bu.difference_matrix(N, d, fmt))
+                err = None
+                for lower in (True, False):
+                    rows = impl_dpd(N, d, lower, 0)
+                    err = err or (rows if isinstance(rows, str) else oracle_dpd(N, d, lower, 0, rows))
+                P = bu.diff_penalty_matrix(N, d).toarray()
+                Dm = np.diff(np.eye(N), d, axis=0)
+                if not np.array_equal(P, Dm.T @ Dm):
+                    err = err or 'diff_penalty_matrix is not D\'D'
+            except Exception as exc:  # noqa
+                err = f'raised {type(exc).__name__}: {exc}'
+            if err:
+                ctx.fail('fresh:sparse-route:stale-after-mutation',
+                         f'{label}: the penalty built afterwards is wrong ({err})', {'kind': 'fresh', 'call': label})
+                found += 1
     return found
 
 
@@ -668,12 +768,174 @@ Eval vm_compute in (bad ok cases).
         ctx.discharged.append('correspondence:PenalizedSystem-histories-with-uses')
 
 
+# ---------------------------------------------------------------- PSpline correspondence
+def coq_pcfg(p):
+    lam, d, al, rev = p
+    r = 'None' if rev is None else f'(Some {coqbool(rev)})'
+    return f'{{| p_lam := {zl(lam)}; p_d := {d}%nat; p_allow_lower := {coqbool(al)}; p_rev := {r} |}}'
+
+
+def coq_pop(o):
+    if o[0] == 'preset':
+        return f'PReset {coq_pcfg(o[1:])}'
+    if o[0] == 'solve':
+        return 'PSolve'
+    return f'POp ({coq_op(o)})'
+
+
+def impl_pspline_history(hp, n_x, num_knots, degree, p0, ops, seed):
+    """PSpline(basis, *p0) followed by ops; 'ValueError' when the constructor rejects p0."""
+    from pybaselines import _spline_utils as su
+    bu = _imp()
+    old = bu._HAS_PENTAPY
+    bu._HAS_PENTAPY = hp
+    try:
+        r = np.random.default_rng(seed)
+        x = np.linspace(0.0, 1.0, n_x)
+        y = r.normal(size=n_x)
+        w = r.uniform(0.1, 1.0, n_x)
+        basis = su.SplineBasis(x, num_knots, degree)
+        try:
+            ps = su.PSpline(basis, lam=p0[0], diff_order=p0[1], allow_lower=p0[2], reverse_diags=p0[3])
+        except ValueError:
+            return 'ValueError'
+        for op in ops:
+            if op == 'rev':
+                apply_op(ps, op)
+            elif op[0] == 'preset':
+                ps.reset_penalty_diagonals(lam=op[1], diff_order=op[2], allow_lower=op[3], reverse_diags=op[4])
+            elif op[0] == 'solve':
+                try:        # reads the penalty only; a clobbered / re-bound penalty may make the solve fail
+                    with np.errstate(all='ignore'):
+                        ps.solve_pspline(y, w)
+                except (np.linalg.LinAlgError, ValueError):
+                    pass
+            else:
+                apply_op(ps, op)
+        return observe(ps)
+    finally:
+        bu._HAS_PENTAPY = old
+
+
+def gen_pspline_history(rng):
+    degree = rng.choice([1, 2, 3, 3, 4])
+    num_knots = rng.choice([3, 4, 5, 6, 8])
+    nb = num_knots + degree - 1
+    n_x = rng.choice([15, 24])
+    hp = rng.random() < 0.5
+
+    def pcfg(dmin=1):
+        d = rng.randint(dmin, min(5, nb - 1))
+        return (rng.choice([1, 1, 2, 5]), d, rng.random() < 0.5, rng.choice([None, False, False, True]))
+    p0 = pcfg()
+    u = rng.random()
+    if u < 0.04:
+        p0 = (p0[0], 0) + p0[2:]                 # rejected: diff_order < 1
+    elif u < 0.08:
+        p0 = (p0[0], nb + rng.choice([0, 1])) + p0[2:]   # rejected: diff_order >= number of basis functions
+    ops = []
+    cur = p0
+
+    def rows_of(p):
+        pad = max(degree - p[1], 0)
+        return (p[1] + 1 + pad) if p[2] else (2 * p[1] + 1 + 2 * pad)
+    rows = rows_of(p0) if 1 <= p0[1] < nb else 0
+    for _ in range(rng.randint(1, 8)):
+        u = rng.random()
+        if u < 0.45:
+            p = pcfg(dmin=0 if rng.random() < 0.1 else 1)
+            ops.append(('preset',) + p)
+            cur = p
+            rows = rows_of(p)
+        elif u < 0.55:
+            ops.append(('solve',))
+        elif u < 0.62:
+            ops.append('rev')
+        else:
+            op, rows = rand_use(rng, nb, rows, cur[2])
+            ops.append(op)
+    return hp, n_x, num_knots, degree, p0, ops, rng.randint(0, 10 ** 6)
+
+
+def order_changes(p0, ops):
+    """number of reset_penalty_diagonals calls that change the difference order (non-triviality)."""
+    n, d = 0, p0[1]
+    for o in ops:
+        if o != 'rev' and o[0] == 'preset':
+            n += o[2] != d
+            d = o[2]
+    return n
+
+
+def pspline_correspondence(ctx):
+    rng = ctx.rng
+    nP = ctx.n(150, 1500)
+    lits = []
+    for k in range(nP):
+        hp, n_x, num_knots, degree, p0, ops, seed = gen_pspline_history(rng)
+        nb = num_knots + degree - 1
+        if k < 9:       # the constructor's boundary, always: diff_order 0 / nb - 1 (accepted) / nb / nb + 1
+            p0 = (p0[0], [0, nb, nb + 1, nb - 1, nb, 0, nb + 1, nb, nb - 1][k]) + p0[2:]
+            if p0[1] == nb - 1:
+                ops = [o for o in ops if o == 'rev' or o[0] in ('preset', 'solve')]
+        case = {'kind': 'pspline-model', 'hp': hp, 'n_x': n_x, 'num_knots': num_knots, 'degree': degree, 'p0': p0,
+                'ops': ops, 'seed': seed}
+        try:
+            got = impl_pspline_history(hp, n_x, num_knots, degree, p0, ops, seed)
+        except Exception as exc:  # noqa
+            ctx.fail('pspline-history:raises', f'PSpline history raised {type(exc).__name__}: {exc}', case)
+            continue
+        ctx.case(('pspline', hp, n_x, num_knots, degree, p0, repr(ops)), nontrivial=order_changes(p0, ops) > 0 and got != 'ValueError',
+                 kind='pspline-history' + (':rejected' if got == 'ValueError' else ''))
+        exp = 'None' if got == 'ValueError' else f'(Some {coq_obs(got)})'
+        ops_l = '[' + '; '.join(coq_pop(o) for o in ops) + ']'
+        lits.append(f'({coqbool(hp)}, {nb}%nat, {degree}, {coq_pcfg(p0)}, {ops_l}, {exp})')
+        if k == 1:
+            ctx.sample(case)
+    ctx.traces += len(lits)
+    ob = 'correspondence:PSpline-histories(init, reset_penalty_diagonals, solve_pspline, uses)'
+    ctx.obligations.append(ob)
+    bad_any = False
+    per = 150
+    for k in range(0, len(lits), per):
+        sh = lits[k:k + per]
+        text = HEADER + f"""
+Definition obs_t : Type := Z * bool * bool * bool * Z * Z * list (list Z) * list (list Z) * list Z * bool.
+Definition cases : list (bool * nat * Z * pcfg * list pop * option obs_t) := [
+{chr(10).join('  ' + l + (';' if i + 1 < len(sh) else '') for i, l in enumerate(sh))}
+].
+Definition obs_eqb (a b : obs_t) : bool :=
+  let '(d1, l1, r1, p1, n1, m1, o1, q1, g1, a1) := a in
+  let '(d2, l2, r2, p2, n2, m2, o2, q2, g2, a2) := b in
+  (d1 =? d2) && Bool.eqb l1 l2 && Bool.eqb r1 r2 && Bool.eqb p1 p2 && (n1 =? n2) && (m1 =? m2)
+  && zll_eqb o1 o2 && zll_eqb q1 q2 && zl_eqb g1 g2 && Bool.eqb a1 a2.
+Definition ok (c : bool * nat * Z * pcfg * list pop * option obs_t) : bool :=
+  let '(hp, nb, deg, p0, ops, exp) := c in
+  match pinit hp nb deg p0, exp with
+  | Some u0, Some e => obs_eqb (uobserve (prun hp nb deg u0 ops)) e
+  | None, None => true
+  | _, _ => false
+  end.
+Eval vm_compute in (bad ok cases).
+"""
+        vals = ctx.coq_eval(f'pspline{k // per}', text)
+        if vals is None:
+            bad_any = True
+        elif not vals or not (vals[0].startswith('(0%nat, [])') or vals[0].startswith('(0, [])')):
+            bad_any = True
+            ctx.broke(f'correspondence:pspline-shard{k // per}',
+                      'model state and PSpline state (settings, original_diagonals, penalty, num_bands, main_diagonal_index, '
+                      f'main_diagonal, shares_memory; or constructor rejection) disagree after a PSpline history: {vals}')
+    if not bad_any:
+        ctx.discharged.append(ob)
+
+
 def run(ctx):
     ctx.rule = ('cases: (N,d,lower,padding) grid for diff_penalty_diagonals, random integer arrays for the band helpers '
                 '(_lower_to_full/_shift_rows/_pad_diagonals/_add_diagonals), random histories (len 1-10) of reconfigurations over '
                 '(lam,diff_order,allow_lower,reverse_diags,allow_pentapy,padding; lam = 1 and padding <= 0 over-sampled), '
                 'reverse_penalty and USES (add_diagonal, add_penalty, in-place overwrite, re-binding of penalty; integer arguments) '
-                'with pentapy present/absent; distinct = distinct canonical case; non-trivial = d>0 and N>d for band cases, '
+                'with pentapy present/absent; PSpline histories (constructor incl. rejected orders, reset_penalty_diagonals with changing diff_order, solve_pspline, uses) over spline degrees 1-4 and 3-8 knots; distinct = distinct canonical case; non-trivial = d>0 and N>d for band cases, '
                 'at least one (lower,reversed) layout change or one reset after a use for histories')
     ctx.trusted += [
         'scipy.sparse D.T @ D + _sparse_to_banded (general path, d>3 or N<2d+1) is modelled as the specification; '
@@ -684,15 +946,17 @@ def run(ctx):
         'after every generated history; SetPen/Clobber are exercised with arrays of the current penalty shape only',
     ]
     ctx.gate()
-    ctx.translate(['GenBands'])
+    ctx.translate(['GenBands', 'GenBandPurity'])
     ok = ctx.build_props()
     correspondence(ctx)
+    pspline_correspondence(ctx)
     budget = 1 if (ok and not ctx.broken) else 4
     if ctx.tier == 'thorough':
         budget = max(budget, 3)
     found = search(ctx, budget)
     ctx.note(f'direct oracle budget x{budget}: {found} failing inputs; general-path sizes in Coq limited to N<{ctx.n(16, 40)}; '
-             'PenalizedSystem2D / WhittakerSystem2D (sparse 2-D penalties) are outside the banded model')
+             'PenalizedSystem2D / WhittakerSystem2D (sparse 2-D penalties) are outside the banded model; freshness of results (no caching / sharing between calls) '
+             'is a translator refusal rule (GenBandPurity) plus an oracle, not a theorem')
 
 
 def _decode_op(o):
@@ -717,6 +981,18 @@ def replay(rep):
         err = history_error(case['hp'], case['N'], c0, ops)
         print('replay history:', err or 'property holds on this input')
         return 1 if err else 0
+    if kind == 'fresh':
+        class _R:
+            fails = []
+            def case(self, *a, **k):
+                pass
+            def fail(self, key, what, case):
+                self.fails.append((key, what))
+        rc = _R()
+        fresh_results(rc, 1)
+        hits = [w for k, w in rc.fails if k == rep.get('key')]
+        print('replay fresh-result oracle:', hits[0] if hits else 'property holds (every constructor returns a new, exact result)')
+        return 1 if hits else 0
     if kind == 'pspline-history':
         ops = [tuple(o) for o in case['ops']]
         got = pspline_run(case['n_x'], case['num_knots'], case['degree'], tuple(case['c0']), ops, case['seed'])
